@@ -8,6 +8,27 @@ IsEvent(e) == l <= Len(TraceLog) /\ Ev.e = e /\ l' = l + 1
 Chk(cond) == IF cond THEN TRUE ELSE PrintT(<<"MISMATCH", l>>)
 RECURSIVE StripZ(_)
 StripZ(c) == IF Len(c) > 1 /\ c[1] = 0 THEN StripZ(Tail(c)) ELSE c
+D == INSTANCE Der
+(* the Extensions content as a list of Extension ::= SEQUENCE { extnID OID, critical BOOLEAN DEFAULT FALSE, extnValue OCTET STRING (holding one DER value) } *)
+NoExt == [ok |-> FALSE, oid |-> <<>>, crit |-> FALSE, val |-> <<>>]
+RECURSIVE ExtWalk(_, _, _)
+ExtWalk(b, pos, lim) ==
+    IF pos > lim THEN <<>>
+    ELSE LET t == D!Tlv(b, pos, lim) IN
+         IF ~t.ok \/ t.tag # 48 THEN <<NoExt>>
+         ELSE LET e == t.body + t.len - 1
+                  o == D!Tlv(b, t.body, e)
+                  c == IF o.ok THEN D!Tlv(b, o.next, e) ELSE D!NoTlv
+                  hasc == c.ok /\ c.tag = 1
+                  v == IF hasc THEN D!Tlv(b, c.next, e) ELSE c
+                  inner == IF v.ok THEN D!Tlv(b, v.body, v.body + v.len - 1) ELSE D!NoTlv
+                  good == o.ok /\ o.tag = 6 /\ v.ok /\ v.tag = 4 /\ v.next = e + 1 /\ (hasc => c.len = 1) /\ inner.ok /\ inner.next = v.body + v.len
+              IN IF ~good THEN <<NoExt>>
+                 ELSE <<[ok |-> TRUE, oid |-> SubSeq(b, o.body, o.body + o.len - 1), crit |-> hasc /\ b[c.body] # 0, val |-> SubSeq(b, v.body, v.body + v.len - 1)]>> \o ExtWalk(b, t.next, lim)
+(* the extensions that come back are the ones supplied: same number and order, identifier, criticality, and (where the harness knows it) value; the library's own walk agrees *)
+ExtsAsSupplied(x, e) == LET w == ExtWalk(e.exts, 1, Len(e.exts)) IN
+    /\ Len(w) = Len(x.xoids) /\ e.extwalk = Len(x.xoids)
+    /\ \A j \in 1..Len(w) : w[j].ok /\ w[j].oid = x.xoids[j] /\ w[j].crit = (x.xcrit[j] = 1) /\ (x.xvals[j] # <<>> => w[j].val = x.xvals[j])
 Init == l = 1 /\ cur = <<>>
 TIssue == /\ IsEvent("Issue") /\ Chk(Ev.rc = 1) /\ cur' = Ev
 (* every field comes back exactly as supplied *)
@@ -16,7 +37,7 @@ TParse == /\ IsEvent("Parse") /\ UNCHANGED cur
                  /\ (cur.kind = "cert" => (Ev.version = 2 /\ StripZ(Ev.serial) = StripZ(cur.serial) /\ Ev.subject = cur.subject /\ Ev.pub = cur.pub))
                  /\ (cur.kind = "req"  => (Ev.version = 0 /\ Ev.subject = cur.subject /\ Ev.pub = cur.pub))
                  /\ (cur.kind = "crl"  => (Ev.version = 1 /\ Ev.revoked = cur.revoked))
-                 /\ (cur.kind # "req"  => (Ev.issuer = cur.issuer /\ Ev.nb_d = cur.nb_d /\ Ev.nb_s = cur.nb_s /\ Ev.na_d = cur.na_d /\ Ev.na_s = cur.na_s /\ Ev.exts = cur.exts /\ Ev.alg1 = Ev.alg2)))
+                 /\ (cur.kind # "req"  => (Ev.issuer = cur.issuer /\ Ev.nb_d = cur.nb_d /\ Ev.nb_s = cur.nb_s /\ Ev.na_d = cur.na_d /\ Ev.na_s = cur.na_s /\ Ev.exts = cur.exts /\ ExtsAsSupplied(cur, Ev) /\ Ev.alg1 = Ev.alg2)))
 (* verification succeeds exactly under the issuing key and signer ID, on the untouched object *)
 TVerify == /\ IsEvent("Verify") /\ UNCHANGED cur
            /\ Chk((Ev.rc = 1) <=> (Ev.keyright /\ Ev.sidright /\ ~Ev.tampered))
